@@ -409,4 +409,7 @@ func TestVerifC06(t *testing.T) {
 			map[string]any{"kind": "FindSegments", "cwd": cwd, "format": f, "ts": ts, "name": nm.S, "err": errs, "files(+returned)": descFiles},
 			class, nret > 0 || refused)
 	}
+
+	// ---- FindAllPathsWithSegments over a real tree (zz_verif_c06list_test.go)
+	vC06Listing(t, r, out, sandbox, n/10)
 }
